@@ -627,6 +627,39 @@ def _delegating_field_types(report):
                                      f"gives 11 (1 call each)", case)
 
 
+def _inner_retort_cannot_serve(report):
+    """a retort standing in a recipe that cannot serve a request declines it: the providers after it are consulted"""
+    import dataclasses
+    from typing import NewType
+    payload = dataclasses.make_dataclass("Payload", [("raw", memoryview)])        # no builtin loader for memoryview
+    blob = NewType("Blob", payload)
+    envelope = dataclasses.make_dataclass("Envelope", [("id", int), ("blob", blob)])
+    envelope2 = dataclasses.make_dataclass("Envelope2", [("id", int), ("p", payload)])
+
+    def load_payload(data):
+        return payload(raw=memoryview(bytes(data)))
+    programs = {
+        "NewType, extend([inner])": ("newtype", lambda: Retort(recipe=[loader(blob, load_payload)]).extend(recipe=[Retort()]), blob, [1, 2]),
+        "NewType field, bound(inner)": ("newtype", lambda: Retort(recipe=[bound(blob, Retort()), loader(blob, load_payload)]), envelope,
+                                        {"id": 1, "blob": [4]}),
+        "model, [inner, loader]": ("model", lambda: Retort(recipe=[Retort(), loader(payload, load_payload)]), payload, [1, 2]),
+        "model field, [inner, loader]": ("model", lambda: Retort(recipe=[Retort(), loader(payload, load_payload)]), envelope2,
+                                         {"id": 1, "p": [4]}),
+    }
+    for pname, (request_kind, mk, tp, data) in programs.items():
+        case = {"part": "inner_retort_cannot_serve", "program": pname}
+        report.case(key=("ircs", pname), nontrivial=True, sample=case)
+        report.count("traces_validated_against_impl", 1)
+        try:
+            with deadline(CASE_DEADLINE):
+                mk().load(data, tp)
+            report.outcome("inner retort declined, the next provider served")
+        except Exception as e:  # noqa: BLE001
+            report.violation({"check": "C09.inner_retort_cannot_serve", "request": request_kind, "exc": type(e).__name__},
+                             f"{pname}: the inner retort cannot serve the request, the loader standing after it can, but load raised "
+                             f"{type(e).__name__}: {str(e)[:120]}", case)
+
+
 def _check_options(retort, sc, dt, hist, report):
     try:
         with deadline(CASE_DEADLINE):
@@ -731,6 +764,7 @@ def run(tier):
             compare((), req, direction, report)
     part2(tier, report)
     _delegating_field_types(report)
+    _inner_retort_cannot_serve(report)
     return report
 
 
